@@ -23,7 +23,14 @@ impl PortAllocatorInner {
     fn try_allocate(&mut self, this: Arc<Mutex<PortAllocatorInner>>) -> Option<PortNumber> {
         if self.is_available() {
             let number = loop {
+                #[cfg(not(feature = "verif-hooks"))]
                 let cand = rand::random();
+                #[cfg(feature = "verif-hooks")]
+                let cand = match crate::exec::verif::current().and_then(|c| c.port_candidate(&|n| self.used.contains(&n)))
+                {
+                    Some(cand) => cand,
+                    None => rand::random(),
+                };
                 if !self.used.contains(&cand) {
                     break cand;
                 }
